@@ -616,6 +616,9 @@ class Exec:
     def contains(self, st, container, item, ln='?'):
         """-> [(state, z3 Bool | Raise)] for `item in container`"""
         c = container
+        if self.spec.contains_hook is not None:
+            r = self.spec.contains_hook(self, st, container, item)
+            if r is not None: return r
         if isinstance(c, PDict): return [(st, Opt.is_Some(c.arr[self.as_str(st, item)]))]
         if isinstance(c, PMap):
             O = OptOf(c.vkind.sort()); return [(st, O.is_Some(c.arr[as_kind(item, c.kkind, st)]))]
